@@ -157,6 +157,69 @@ CHECKS.update({
     ),
 })
 
+CHECKS.update({
+    "C02": dict(
+        text="Token-level state-space search: from 16 seed prefixes (one per grammar context) EVERY viable token string of up to 5-6 (7) further "
+             "tokens over a 24-token alphabet is generated with a hand-written pushdown recogniser (cross-checked against an independent Earley "
+             "recogniser), and each prefix p, p.t for every token t, and p.close(p) is run through the real parser: accept <=> derivable, the "
+             "S-expression equals the model's tree, rejection raises JaqalParseError at a token at or after the first offending one (or end of "
+             "input). Plus every single-token deletion/duplication/swap/replacement of 40 pool programs, and every rendering of them with <= 2 (3) "
+             "layout deviations (separator choice, blanks, //, /* */ comments incl. multi-line and adjacent).",
+        note="branch/case, BININT, import-as, ',' and non-positive register sizes are outside the alphabet; end of input is always an acceptable error position",
+        technique="explicit-state search over reference-parser configurations (token strings to a depth bound) replayed on the real parser; near-miss and layout enumeration",
+        ref="5/C02",
+    ),
+    "C06": dict(
+        text="Product-exhaustive alias chains: register size 1-4 (5), depth 1-2 (3), every link form (whole / single i / slice with lo, hi in "
+             "{absent, 0..len}, st in {absent,1,2,3,-1}), literal and let spellings of the bounds, every index into the last link, four placements "
+             "(top level, macro body, macro argument, indexing a register-valued parameter). The model's own index arithmetic gives (q, idx); "
+             "resolve_qubit, fill_in_map, used-qubit analysis and the emulator (X and an asymmetric CX) must all agree with it.",
+        note="only chains the model finds valid are judged (the rest is C14's); the pyGSTi generator refuses aliases and is not a consumer",
+        technique="product-exhaustive enumeration of alias chains x indices x placements; four consumers vs independent index arithmetic",
+        ref="5/C06",
+    ),
+    "C08": dict(
+        text="Tree-exhaustive nests of loops (counts 0-3, let-valued with and without override), sequential blocks and subcircuits in both "
+             "spellings, bounded by total node count, incl. sections that straddle a loop boundary; under a deterministic fuel budget the emulator "
+             "must terminate and its readouts must be exactly the reference interpreter's visit sequence (subcircuit index per executed measure, "
+             "flat-order numbering, per-subcircuit readouts and frequencies, non-zero-probability outcomes); parse_jaqal_output_list must attribute "
+             "EVERY output list over {0..2^n-1} (int and string) of matching length to the same visits.",
+        note="node bound 6 (7), at most 6 subcircuits; visit model = mc/ref/execute.py (cross-checked against a brute-force unrolled interpreter)",
+        technique="tree-exhaustive enumeration of loop/subcircuit nests; emulator and output parser vs reference unrolled-execution model under a fuel bound",
+        ref="5/C08",
+    ),
+    "C12": dict(
+        text="Tree-exhaustive bodies over {prepare_all, measure_all, gate, subcircuit{gate}} and wrappers {loop 0/1/2, sequential block, "
+             "single-branch parallel block, parameterless macro call} bounded by total node count; the acceptance predicate written literally from "
+             "the statement decides each; the real discovery step (emulator job construction) and run_jaqal_circuit under fuel must accept exactly "
+             "those, report the model's number of subcircuits, and reject the others with JaqalError.",
+        note="node bound 6 (7) under legal nesting; message wording not judged",
+        technique="tree-exhaustive enumeration of bracket placements; real subcircuit discovery vs acceptance predicate",
+        ref="5/C12",
+    ),
+    "C13": dict(
+        text="Exactness: every body statement and nested sub-statement of the tree-exhaustive program pool and of the neighbourhood of a native "
+             "program (aliases, lets, macros with qubit/register/index parameters, busy and idle gates) - get_used_qubit_indices must equal the "
+             "model's set. Collisions: every ordered 2- and 3-tuple of branch forms (1/2/3-qubit gates, sequential sub-blocks, macro calls, alias "
+             "references, idle and unitary-less gates) in three placements - the emulator must raise JaqalError exactly when the model finds two "
+             "intersecting branches, and accepted programs must have the reference simulator's state for every branch order.",
+        note="bare statements with busy gates and unexpanded subcircuit blocks are read weakly (see assumptions); 3-qubit register for the collision space",
+        technique="exhaustive enumeration of statements and of ordered branch tuples; used-qubit analysis and emulator vs denotation-based model",
+        ref="5/C13",
+    ),
+    "C14": dict(
+        text="Product-exhaustive: boundary values {-2,-1,0,size-1,size,size+1,0.5,1.0} x 8 reference positions x 6 ways of arrival (literal, let, "
+             "override, macro argument, macro argument that is a let / overridden) x register sizes 1-3; non-register targets; undefined names in "
+             "every position; all ordered pairs of declaration kinds sharing a name; gate name x arity 0-3 x argument kinds x 8 native-gate "
+             "situations (none, injected, usepulses fixtures in both orders, injected + imported). Staged pipeline parse -> fill_in_let -> "
+             "expand_macros -> run: an unhonourable reference must raise JaqalError no later than the stage where its value is concrete and never "
+             "produce a result; accepted programs must resolve as the model says and use the definition the precedence rule selects.",
+        note="empty aliases, odd-but-harmless bounds, zero steps, non-positive sizes, negative counts are enumerated but not judged; integral floats may be accepted or rejected",
+        technique="product-exhaustive enumeration of references x arrival routes on the real staged pipeline vs reference validity model",
+        ref="5/C14",
+    ),
+})
+
 NOT_YET = {}
 
 
